@@ -2,6 +2,7 @@ import Proofs.C05.VarInt
 import Proofs.C05.Tx
 import Proofs.C05.PsbtMap
 import Proofs.C05.Misc
+import Proofs.C05.P2p
 /-!
 # C05 — wire formats are canonical: parse and serialize are mutually inverse
 
@@ -181,6 +182,43 @@ example : exTxW.isSegwit = true ∧ (Tx.ser true exTxW).length = Tx.size true ex
 example : Tx.parse (Tx.ser false exTxW) = .ok (exTxW.strip, []) := by decide
 /-- the shape T1 excludes really fails to round-trip (no input, one output) -/
 example : Tx.parse (Tx.ser true ⟨1, 0, [], [⟨0, []⟩]⟩) ≠ .ok (⟨1, 0, [], [⟨0, []⟩]⟩, []) := by decide
+
+/-! ## p2p envelope and payloads -/
+
+/-- the message envelope (magic, 12-byte NUL-padded printable command, LE length, checksum =
+    first four bytes of the hash of the payload) obeys T1-T3 for EVERY hash function `H` -/
+theorem message_lawful (H : Bytes → Bytes) : Lawful (msg H) := lawful_msg H
+theorem message_valid_iff (H : Bytes → Bytes) (hH : ∀ x, 4 ≤ (H x).length) (m : Msg) :
+    (msg H).valid m ↔ m.magic.length = 4 ∧ (m.command.length ≤ 12 ∧ m.command.all printable = true)
+      ∧ m.payload.length ≤ Gen.Wire.MAX_PROTOCOL_MESSAGE_LENGTH := msg_valid H hH m
+/-- a count checked against the cap of its payload class, then that many items -/
+theorem capped_list_lawful {α : Type} (m : Nat) (c : Codec α) (h : Lawful c) : Lawful (listUpTo m c) :=
+  lawful_listUpTo m h
+theorem capped_list_valid_iff {α : Type} (m : Nat) (c : Codec α) (l : List α) :
+    (listUpTo m c).valid l ↔ (l.length ≤ Gen.VarInt.MAX_SIZE ∧ l.length ≤ m) ∧ ∀ x ∈ l, c.valid x :=
+  listUpTo_valid m c l
+theorem ping_pong_lawful : Lawful nonce8 := lawful_uintLE 8
+theorem feefilter_lawful : Lawful feeFilter := lawful_intLE 8
+theorem empty_payload_lawful : Lawful Btc.Wire.empty := lawful_empty
+theorem network_address_lawful : Lawful netAddr := lawful_netAddr
+theorem addr_lawful : Lawful addr := lawful_addr
+theorem inventory_lawful : Lawful inventory := lawful_inventory
+theorem inv_getdata_notfound_lawful : Lawful inv := lawful_inv
+theorem getblocks_getheaders_lawful : Lawful locator := lawful_locator
+/-- `Headers`: each header is followed by a transaction count that is exactly `00` -/
+theorem headers_lawful : Lawful headers := lawful_headers
+/-- `Version` on octets: accepted iff the serialization of a valid body closed by nothing, `00` or `01`;
+    so a relay flag of 2, or anything after the flag, is never accepted -/
+theorem version_accepted_iff (b : Bytes) (v : Version × Option Bool) :
+    Version.parseAll b = .ok v ↔ versionBody.valid v.1 ∧ b = Version.serAll v := version_parseAll_iff b v
+
+example : (msg (fun _ => [1, 2, 3, 4, 5])).parseAll
+    ([0xf9, 0xbe, 0xb4, 0xd9] ++ [112, 105, 110, 103, 0, 0, 0, 0, 0, 0, 0, 0] ++ [2, 0, 0, 0] ++ [1, 2, 3, 4] ++ [7, 7])
+    = .ok ⟨[0xf9, 0xbe, 0xb4, 0xd9], [112, 105, 110, 103], [7, 7]⟩ := by decide
+example : (msg (fun _ => [1, 2, 3, 4])).parseAll
+    ([0xf9, 0xbe, 0xb4, 0xd9] ++ [112, 0, 110, 0, 0, 0, 0, 0, 0, 0, 0, 0] ++ [0, 0, 0, 0] ++ [1, 2, 3, 4])
+    = .error .badCommand := by decide
+example : headers.parseAll (1 :: List.replicate 80 1 ++ [1]) = .error .badCount := by decide
 
 /-! ## BIP32 extended key data -/
 
